@@ -1,9 +1,16 @@
 import SurfProofs.Lemmas.ToNFA
+import SurfProofs.Lemmas.Subset
 namespace SurfProofs.Tags
 open SurfModel.Automata SurfProofs.Graph SurfProofs.NFASem SurfProofs.NFAGraph SurfProofs.NFALang SurfProofs.ReMatch SurfProofs.ToNFA
 
 /-- tag `t` sits on a state reachable reading `w` -/
 def TagReach (n : NFA) (w : List UInt8) (t : Nat) : Prop := ∃ q, Reach n w q ∧ tagAt n.states q = some t
+
+/-- the DFA's tag report after `w`, in terms of the NFA -/
+theorem mem_tagsAfter_iff (n : NFA) (w : List UInt8) (t : Nat) : t ∈ n.compile.tagsAfter w ↔ TagReach n w t := by
+  rw [SurfProofs.Subset.mem_tagsAfter]
+  unfold TagReach
+  simp only [tagOf_eq]
 
 theorem tagAt_none_of_ge (sts : List NState) (q : Nat) (h : sts.length ≤ q) : tagAt sts q = none := by
   simp [tagAt, List.getElem?_eq_none h]
@@ -223,5 +230,58 @@ theorem tagged_tagReach (a : Re × Option Nat) (htf : TagFree a.1) (w : List UIn
       refine ⟨e.toNFA.stop, ?_, ?_⟩
       · rw [tagStop_reach]; exact ((toNFA_spec e).2 w).mpr hm
       · rw [tagAt_tagStop]; simp [(toNFA_spec e).1.stop]
+
+
+/-! ### `tags_map` changes tags only -/
+
+theorem tagsMap_edge (n : NFA) (f : Nat → Nat) (x : Nat) (c : UInt8) (y : Nat) :
+    (gr (n.tagsMap f).states).edge x c y ↔ (gr n.states).edge x c y := by
+  simp only [gr, NFA.tagsMap, List.getElem?_map]
+  cases n.states[x]? <;> simp
+
+theorem tagsMap_eps (n : NFA) (f : Nat → Nat) (x y : Nat) :
+    (gr (n.tagsMap f).states).eps x y ↔ (gr n.states).eps x y := by
+  simp only [gr, NFA.tagsMap, List.getElem?_map]
+  cases n.states[x]? <;> simp
+
+theorem tagsMap_path (n : NFA) (f : Nat → Nat) (s q : Nat) (w : List UInt8) :
+    Path (gr (n.tagsMap f).states) s w q ↔ Path (gr n.states) s w q := by
+  constructor
+  · exact Path.mono (g := gr (n.tagsMap f).states) (g' := gr n.states)
+      (fun s c t h => (tagsMap_edge _ _ _ _ _).mp h) (fun s t h => (tagsMap_eps _ _ _ _).mp h)
+  · exact Path.mono (g := gr n.states) (g' := gr (n.tagsMap f).states)
+      (fun s c t h => (tagsMap_edge _ _ _ _ _).mpr h) (fun s t h => (tagsMap_eps _ _ _ _).mpr h)
+
+theorem tagsMap_lang (n : NFA) (f : Nat → Nat) (w : List UInt8) : Lang (n.tagsMap f) w ↔ Lang n w :=
+  tagsMap_path n f _ _ w
+
+theorem tagsMap_wf (n : NFA) (f : Nat → Nat) (hwf : WF n) : WF (n.tagsMap f) := by
+  refine ⟨by simpa [NFA.tagsMap] using hwf.start, by simpa [NFA.tagsMap] using hwf.stop, ?_⟩
+  rw [wfs_iff]
+  constructor
+  · intro s c y h
+    simpa [NFA.tagsMap] using hwf.states.edge ((tagsMap_edge _ _ _ _ _).mp h)
+  · intro s y h
+    simpa [NFA.tagsMap] using hwf.states.eps ((tagsMap_eps _ _ _ _).mp h)
+
+theorem tagAt_tagsMap (n : NFA) (f : Nat → Nat) (q : Nat) :
+    tagAt (n.tagsMap f).states q = (tagAt n.states q).map f := by
+  simp only [tagAt, NFA.tagsMap, List.getElem?_map]
+  cases n.states[q]? <;> simp
+
+/-- the tags alive after `w` in `n.tags_map(f)` are the images of those alive in `n` -/
+theorem tagsMap_tagReach (n : NFA) (f : Nat → Nat) (w : List UInt8) (t : Nat) :
+    TagReach (n.tagsMap f) w t ↔ ∃ t', TagReach n w t' ∧ f t' = t := by
+  unfold TagReach Reach
+  constructor
+  · rintro ⟨q, hp, ht⟩
+    rw [tagAt_tagsMap] at ht
+    cases h : tagAt n.states q with
+    | none => simp [h] at ht
+    | some t' =>
+      simp [h] at ht
+      exact ⟨t', ⟨q, (tagsMap_path n f _ _ w).mp hp, h⟩, ht⟩
+  · rintro ⟨t', ⟨q, hp, ht⟩, rfl⟩
+    exact ⟨q, (tagsMap_path n f _ _ w).mpr hp, by rw [tagAt_tagsMap, ht]; rfl⟩
 
 end SurfProofs.Tags
